@@ -266,3 +266,203 @@ def reference_clean_contract():
                  comprehensions={'*': lambda x, e, p: iter([(p, Val('opaque', x='generator'))])},
                  note='custom-flag formula and strict refusal only; the white/black-list type test is covered by the bounded check')
     return c
+
+
+# ------------------------------------------------------------------ ExtensionsProperty.clean: strict refusal and custom flag over all extension entries
+EXT_KEY = z3.Function('ext.key', z3.IntSort(), S)
+NEXT = z3.Int('n_extensions')
+EXT_REG = z3.Function('class_for_type(key).registered', z3.IntSort(), z3.BoolSort())
+EXT_IS_DICT = z3.Function('isinstance(subvalue, dict)', z3.IntSort(), z3.BoolSort())
+EXT_IS_INST = z3.Function('isinstance(subvalue, cls)', z3.IntSort(), z3.BoolSort())
+EXT_HC = z3.Function('ext.has_custom', z3.IntSort(), z3.BoolSort())
+EXTDEF = z3.StringVal('extension-definition--')
+
+
+def ext_custom(j):
+    """entry j carries custom content: a registered extension whose object says so, or an unregistered name that is not an extension-definition id"""
+    return z3.If(EXT_REG(j), EXT_HC(j), z3.Not(z3.PrefixOf(EXTDEF, EXT_KEY(j))))
+
+
+def extensions_clean_contract():
+    def h_get_dict(x, e, p, site):
+        yield p.fork(), Exc('ValueError', site + ':_get_dict')
+        yield p, Val('opaque', x='dictified')
+
+    def h_deepcopy(x, e, p, site):
+        for p1, vs in x.ev_seq(list(e.args), p):
+            if isinstance(vs, Exc): yield p1, vs
+            else: yield p1.fork(NEXT >= 0), Val('extdict', x='dictified')
+
+    def m_items(x, recv, args, e, p, site):
+        yield p, Seq(lambda i: Val('tuple', x=[Str(EXT_KEY(i)), Val('extval', i)]), NEXT)
+
+    def h_class_for_type(x, e, p, site):
+        for p1, vs in x.ev_seq(list(e.args), p):
+            if isinstance(vs, Exc):
+                yield p1, vs; continue
+            idx = p1.ghost.get('iter_index')
+            yield p1, Val('extcls', idx)
+
+    def isinst_dict(x, v, p, site):
+        if v.sort != 'extval': raise Unsupported(site + ' isinstance dict of ' + v.sort)
+        yield p, Bool(EXT_IS_DICT(v.t))
+
+    def isinst_cls(x, v, p, site):
+        if v.sort != 'extval': raise Unsupported(site + ' isinstance cls of ' + v.sort)
+        yield p, Bool(z3.And(EXT_IS_INST(v.t), z3.Not(EXT_IS_DICT(v.t))))        # (a dict is never an instance of a library class)
+
+    def h_cls_ctor(x, e, p, site):
+        kw = {k.arg: k.value for k in e.keywords if k.arg}
+        for p1, vs in x.ev_seq(list(kw.values()), p):
+            if isinstance(vs, Exc):
+                yield p1, vs; continue
+            named_args = dict(zip(kw, vs))
+            x.oblige('extension constructor receives this call\'s allow_custom', p1.pc, z3.BoolVal(named_args.get('allow_custom') is x.params['allow_custom']), p1.exact, 'call-requires')
+            for exn in FAMILY: yield p1.fork(), Exc(exn, site + ':constructor')
+            idx = p1.ghost.get('iter_index')
+            yield p1, Rec(has_custom=Bool(EXT_HC(idx)))
+
+    def attr_has_custom(x, o, p, site): yield p, Bool(EXT_HC(o.t))
+
+    def h_validate_id(x, e, p, site):
+        for p1, vs in x.ev_seq(list(e.args), p):
+            if isinstance(vs, Exc):
+                yield p1, vs; continue
+            yield p1.fork(), Exc('ValueError', site + ':_validate_id')
+            yield p1, NONE
+
+    def h_type(x, e, p, site): yield p, Val('opaque', x='type(subvalue)')
+    def store(x, tgt, v, q): pass            # dictified[key] = ...: the output dictionary is not part of this contract
+
+    def inv(x, env, i, it):
+        j = z3.Int('j!x')
+        return z3.And(env['has_custom'].t == z3.Exists([j], z3.And(0 <= j, j < i, ext_custom(j))),
+                      z3.Or(env['allow_custom'].t, z3.Not(env['has_custom'].t)))
+
+    def ens(a, r):
+        j = z3.Int('j!xe')
+        if r.sort != 'tuple' or len(r.x) != 2 or r.x[1].sort != 'bool': raise SortMismatch('result shape')
+        anyc = z3.Exists([j], z3.And(0 <= j, j < NEXT, ext_custom(j)))
+        return z3.And(r.x[1].t == anyc, z3.Implies(z3.Not(a['allow_custom'].t), z3.Not(anyc)))
+
+    def outcomes(x, outs, add):
+        for i, (kind, p, v) in enumerate(outs):
+            if kind == 'raise' and v.name == 'CustomContentError' and ':constructor' not in v.site:
+                add(f'CustomContentError raised here only with customisation disallowed @path{i}', p.pc, z3.Not(x.params['allow_custom'].t), p.exact and v.exact)
+    return Contract(f'{PR}::ExtensionsProperty.clean', props=['C04', 'C02'],
+                    params={'self': Rec(spec_version=Str(z3.String('self.spec_version'))), 'value': 'opaque', 'allow_custom': 'bool', 'interoperability': 'bool'},
+                    ensures=[('has_custom <=> some entry carries custom content (registered: the extension object says so -- whether it was built here or handed in ready-made; '
+                              'unregistered: any name that is not an extension-definition id); strict mode => no entry does', ens)],
+                    raises=dict(FAMILY), on_outcomes=outcomes,
+                    handlers={'_get_dict': h_get_dict, 'copy.deepcopy': h_deepcopy, 'class_for_type': h_class_for_type, 'isinstance:dict': isinst_dict, 'isinstance:cls': isinst_cls,
+                              'cls': h_cls_ctor, '_validate_id': h_validate_id, 'type': h_type},
+                    registry_ext={'methods': {('.items', 'extdict'): m_items}, 'attrs': {('extval', 'has_custom'): attr_has_custom}},
+                    truthy_handlers={'extcls': lambda x, v: EXT_REG(v.t)},
+                    store_handler=store, loops={0: {'kind': 'inv', 'inv': inv}},
+                    assumptions=['callee contracts used: class_for_type (registry lookup), the extension class constructor (may refuse with a library error; its result reports has_custom), _validate_id (may raise ValueError)'],
+                    note='a ready-made extension object is subject to the same strict check and contributes to the flag like one built from a dictionary')
+
+
+# ------------------------------------------------------------------ EnumProperty / HexProperty / DictionaryProperty / FloatProperty .clean
+def enum_clean_contract():
+    allowed = z3.Const('self.allowed', SetS); cleaned = z3.String('StringProperty.clean(value)')
+
+    def h_super_clean(x, e, p, site): yield p, Val('tuple', x=[Str(cleaned), Val('opaque', x='_')])
+
+    def ens(a, r):
+        if r.sort != 'tuple' or len(r.x) != 2 or r.x[0].sort != 'str' or r.x[1].sort != 'bool': raise SortMismatch('result shape')
+        return z3.And(r.x[0].t == cleaned, allowed[cleaned], z3.Not(r.x[1].t))
+    return Contract(f'{PR}::EnumProperty.clean', props=['C02', 'C03'],
+                    params={'self': Rec(allowed=SetV(allowed)), 'value': 'opaque', 'allow_custom': 'bool', 'interoperability': 'bool'},
+                    ensures=[('returns the string form unchanged, a member of the enumeration, never custom', ens)],
+                    raises={'ValueError': lambda a: z3.Not(allowed[cleaned])},
+                    handlers={'super(EnumProperty, self).clean': h_super_clean, 'super().clean': h_super_clean},
+                    assumptions=['callee contract used: StringProperty.clean returns the string form of the value (str(v); identity on strings)', 'self.allowed is abstracted to its element set'],
+                    note='iff: accepted exactly when the string form is in the enumeration')
+
+
+def hex_clean_contract():
+    from vf.pyvc import rx
+    v = z3.String('value')
+    L = rx.match_language(r"^([a-fA-F0-9]{2})+\Z", 0)
+    spec = z3.InRe(v, z3.Plus(z3.Concat(*[z3.Union(z3.Range('a', 'f'), z3.Range('A', 'F'), z3.Range('0', '9'))] * 2)))
+
+    def ens(a, r):
+        if r.sort != 'tuple' or len(r.x) != 2 or r.x[0].sort != 'str' or r.x[1].sort != 'bool': raise SortMismatch('result shape')
+        return z3.And(r.x[0].t == v, spec, z3.Not(r.x[1].t))
+    return Contract(f'{PR}::HexProperty.clean', props=['C02', 'C03'], params={'self': 'opaque', 'value': Str(v), 'allow_custom': 'bool'},
+                    ensures=[('returns the string unchanged: a non-empty even number of hexadecimal digits, never custom', ens)],
+                    raises={'ValueError': lambda a: z3.Not(spec)},
+                    note='iff: accepted exactly when the value is ([0-9a-fA-F]{2})+ (no trailing newline)')
+
+
+DKEY = z3.Function('dict.key', z3.IntSort(), S)
+NDK = z3.Int('n_dict_keys')
+
+
+def dictionary_clean_contract():
+    ver = z3.String('self.spec_version')
+    from vf.pyvc import rx
+    KEYLANG = rx.match_language(r"^[a-zA-Z0-9_-]+\Z", 0)          # the specification's key alphabet, written here (not read from the code)
+
+    def ok(k):
+        n = z3.Length(k)
+        return z3.And(z3.InRe(k, KEYLANG), z3.If(ver == z3.StringVal('2.0'), z3.And(n >= 3, n <= 256), z3.If(ver == z3.StringVal('2.1'), n <= 250, z3.BoolVal(True))))
+
+    def h_get_dict(x, e, p, site):
+        yield p.fork(), Exc('ValueError', site + ':_get_dict')
+        yield p.fork(NDK >= 0), Val('dictv', x='dictified')
+
+    def m_keys(x, recv, args, e, p, site): yield p, Seq(lambda i: Str(DKEY(i)), NDK)
+
+    def h_len(x, e, p, site):
+        for p1, vs in x.ev_seq(list(e.args), p):
+            if isinstance(vs, Exc): yield p1, vs
+            elif vs[0].sort == 'dictv': yield p1, Int(NDK)
+            elif vs[0].sort == 'str': yield p1, Int(z3.Length(vs[0].t))
+            else: raise Unsupported(site + ' len of ' + vs[0].sort)
+
+    def ens(a, r):
+        if r.sort != 'tuple' or len(r.x) != 2 or r.x[1].sort != 'bool': raise SortMismatch('result shape')
+        return z3.And(NDK >= 1, z3.Not(r.x[1].t))
+
+    def outcomes(x, outs, add):
+        # iteration-local statements (quantifier-free): an arbitrary iteration falls through only for a key that satisfies the rule, and raises DictionaryKeyError only for
+        # one that breaks it; by the loop rule every key of a normally returned dictionary satisfies the rule
+        for n, (r, _) in enumerate(x.iteration_outcomes.get(0, [])):
+            add(f'an iteration completes only for a key that satisfies the rule of the property\'s spec version @iteration-path{n}', r.pc, ok(DKEY(r.ghost['iter_index'])), r.exact)
+        for i, (kind, p, v) in enumerate(outs):
+            if kind == 'raise' and v.name == 'DictionaryKeyError':
+                add(f'DictionaryKeyError only for a key that breaks the rule of the property\'s spec version @path{i}', p.pc, z3.Not(ok(DKEY(p.ghost['iter_index']))), p.exact and v.exact)
+            if kind == 'raise' and v.name == 'ValueError' and ':_get_dict' not in v.site and 'handling' not in p.ghost:
+                add(f'ValueError (empty) only for an empty dictionary @path{i}', p.pc, NDK == 0, p.exact and v.exact)
+    return Contract(f'{PR}::DictionaryProperty.clean', props=['C02', 'C03'],
+                    params={'self': Rec(spec_version=Str(ver)), 'value': 'opaque', 'allow_custom': 'bool', 'interoperability': 'bool'},
+                    ensures=[('normal return => non-empty, never custom (the key rule is stated per iteration)', ens)],
+                    raises={'ValueError': None, 'DictionaryKeyError': None}, on_outcomes=outcomes,
+                    handlers={'_get_dict': h_get_dict, 'len': h_len}, registry_ext={'methods': {('.keys', 'dictv'): m_keys}},
+                    assumptions=['callee contract used: _get_dict returns a dictionary or raises ValueError; keys are strings (JSON member names)',
+                                 'loop rule (meta-argument, not an obligation): the body is iteration-local, so what holds for an arbitrary completed iteration holds for every key'],
+                    note='key rules per spec version ([a-zA-Z0-9_-]+; 2.0: 3..256 characters, 2.1: at most 250); errors only for their stated reasons')
+
+
+def float_clean_contract():
+    mn_none, mx_none = z3.Bool('self.min.isnone'), z3.Bool('self.max.isnone')
+    mn, mx, f = z3.Real('self.min'), z3.Real('self.max'), z3.Real('float(value)')
+    CONV = z3.Bool('float(value) succeeds')
+
+    def h_float(x, e, p, site):
+        q = p.fork(z3.Not(CONV))
+        yield q, Exc('ValueError', site + ':float')          # (any exception: the code catches Exception)
+        yield p.fork(CONV), Val('real', f)
+    inrange = z3.And(z3.Or(mn_none, f >= mn), z3.Or(mx_none, f <= mx))
+
+    def ens(a, r):
+        if r.sort != 'tuple' or len(r.x) != 2 or r.x[0].sort != 'real' or r.x[1].sort != 'bool': raise SortMismatch('result shape')
+        return z3.And(CONV, r.x[0].t == f, inrange, z3.Not(r.x[1].t))
+    return Contract(f'{PR}::FloatProperty.clean', props=['C02', 'C03'],
+                    params={'self': Rec(min=Val('opt:real', (mn_none, Val('real', mn))), max=Val('opt:real', (mx_none, Val('real', mx)))), 'value': 'opaque', 'allow_custom': 'bool'},
+                    ensures=[('returns float(value), inside [min, max], never custom', ens)],
+                    raises={'ValueError': lambda a: z3.Not(z3.And(CONV, inrange))}, handlers={'float': h_float},
+                    assumptions=['A: finite floats are treated as reals (comparisons on NaN are outside the contract); float(v) returns a float or raises'],
+                    note='iff: accepted exactly when convertible and inside the declared range (boundaries included)')
